@@ -78,6 +78,10 @@ pub struct EpmdClient {
 impl EpmdClient {
     /// Create a new EPMD client
     pub fn new(host: impl Into<String>) -> Self {
+        #[cfg(edp_rs_verif)]
+        if let Some(port) = crate::verif_hooks::epmd_port_override() {
+            return Self::with_port(host, port);
+        }
         Self {
             host: host.into(),
             port: EPMD_PORT,
